@@ -84,7 +84,7 @@ fn selfcheck(runs: u64) -> i32 {
     }
     println!("selfcheck: VERIF_SEED={seed}, {runs} run indices per property, 3 partitions x 2 repetitions");
     #[cfg(feature = "shuttled")]
-    let engines = ["C15", "C20", "C16", c20conc::ENGINE];
+    let engines = ["C15", "C20", "C16", c20conc::ENGINE, c20conc::ENGINE_C15];
     #[cfg(not(feature = "shuttled"))]
     let engines = ["C15", "C20", "C16"];
     for prop in engines {
@@ -155,6 +155,15 @@ fn real_main() -> i32 {
                     };
                     return histcheck::check(p, tier, Some(&post));
                 }
+                #[cfg(feature = "shuttled")]
+                if p.id == "C15" && std::env::var("VERIF_PROFILE_PASS").is_err() {
+                    // overlapping compilations (the history pass releases one call at a time)
+                    let post = |seed: u64, tier: Tier| -> Result<histcheck::PostPass, String> {
+                        let r = c20conc::pass_for("C15", seed, tier)?;
+                        Ok(histcheck::PostPass { exit: r.exit, violations: r.violations, name: "concurrent_pass", evidence: r.evidence })
+                    };
+                    return histcheck::check(p, tier, Some(&post));
+                }
                 #[cfg(not(feature = "shuttled"))]
                 if p.id == "C20" {
                     println!("note: concurrent pass of C20 skipped (the rewritten copy of the library did not build)");
@@ -178,8 +187,8 @@ fn real_main() -> i32 {
                 return 0;
             }
             #[cfg(feature = "shuttled")]
-            if args[1] == c20conc::ENGINE {
-                return match c20conc::run_block(seed, first, count, tier) {
+            if args[1] == c20conc::ENGINE || args[1] == c20conc::ENGINE_C15 {
+                return match c20conc::run_block(&args[1], seed, first, count, tier) {
                     Ok(br) => {
                         println!("{}", br.to_json());
                         0
